@@ -178,9 +178,58 @@ def twice_cases(ctx):
     cw.standard_check_after_real(ctx, cases, PROP, KINDS, "runner.hooks", monitor)
 
 
+def post_mortem_cases(ctx):
+    """-D/--post-mortem with a test that raises (the debugger prompt is answered with "c"): the per-test hooks are
+    balanced per layer all the same - every testSetUp is followed by its testTearDown before the next one"""
+    rng = ctx.rng
+    cases = []
+    for i in range(4 if ctx.quick() else 60):
+        w = worlds.gen_world(rng, n_layers=rng.choice([2, 3]), tests_per_layer=(1, 3), kinds=["pass", "error", "fail"],
+                             p_fault=0.0, p_write=0.0)
+        for t in w["tests"]:
+            for k in ("doctest", "rebind", "ownstream", "label"):
+                t.pop(k, None)
+        for l in w["layers"]:
+            if l["kind"] != "unit":
+                l["testSetUp"] = l["testTearDown"] = True
+        cases.append(cw.Case(w, {"verbose": 1, "post_mortem": True, "_stdin": "c\n" * 30, "_timeout": 60}, "post-mortem"))
+    cw.run_real_cases(ctx, cases)
+    for c in cases:
+        ctx.count(c.replay_obj(), nontrivial=True, sample=None)
+        ctx.bump("post-mortem")
+        if not cw.sane_run(ctx, c, PROP):
+            continue
+        parent, children = cw.real_processes(c)
+        bad = None
+        for pname, evs in [("parent", parent)] + [("child %r" % (k,), v) for k, v in children.items()]:
+            open_ = {}
+            for e in evs:
+                if e[0] == "tsu":
+                    if open_.get(e[1]):
+                        bad = "%s: testSetUp of layer %d is called again before its testTearDown" % (pname, e[1])
+                        break
+                    open_[e[1]] = True
+                elif e[0] == "ttd":
+                    if not open_.get(e[1]):
+                        bad = "%s: testTearDown of layer %d without a testSetUp before it" % (pname, e[1])
+                        break
+                    open_[e[1]] = False
+            if not bad and any(open_.values()):
+                bad = "%s: layers %r saw testSetUp but never the matching testTearDown" % (
+                    pname, sorted(k for k, v in open_.items() if v))
+            if bad:
+                break
+        if bad:
+            ctx.violation(bad + " (-D)", c.replay_obj(), signature="C05:post-mortem-unbalanced")
+
+
 def run(ctx):
     cw.standard_check(ctx, cw.corpus_cases(PROP) + gen_cases(ctx), PROP, KINDS, "runner.hooks", monitor)
     twice_cases(ctx)
+    post_mortem_cases(ctx)
+    # the order of the per-test hooks is order_by_bases over gather_layers (C05_bases_first rests on C10_bases_first)
+    from harness import corr_layers
+    corr_layers.order_cases(ctx)
     proto_check(ctx)
 
 
